@@ -49,7 +49,7 @@ func (a *AuthReq) Done() bool {
 	vhook.Point("storage.Done")
 	a.store.mu.Lock()
 	d := a.done
-	a.store.calls = append(a.store.calls, Call{Op: "Done", Args: []string{a.ID}, Result: fmt.Sprint(d), Seq: len(a.store.calls)})
+	a.store.calls = append(a.store.calls, Call{Op: "Done", Args: []string{a.ID}, Result: fmt.Sprint(d), Seq: len(a.store.calls), Thread: ThreadID()})
 	a.store.mu.Unlock()
 	return d
 }
@@ -62,6 +62,7 @@ type Call struct {
 	Err    string   `json:"err,omitempty"`
 	Fault  string   `json:"fault,omitempty"`
 	Seq    int      `json:"seq"`
+	Thread int      `json:"thread"` // scheduler thread that made the call (-1 outside the scheduler)
 	// Request is the *AuthnRequestType handed to CreateAuthRequest (nil otherwise).
 	Request *samlp.AuthnRequestType `json:"-"`
 }
@@ -81,6 +82,9 @@ const (
 )
 
 var ErrInjected = errors.New("injected storage fault")
+
+// ThreadID reports the scheduler thread making a storage call (installed by the sched engine).
+var ThreadID = func() int { return -1 }
 
 // Store is the strict in-memory implementation of provider.Storage.
 type Store struct {
@@ -177,6 +181,7 @@ func (s *Store) Complete(id, userID string) bool {
 	vhook.Point("env.Complete")
 	s.mu.Lock()
 	defer s.mu.Unlock()
+	s.calls = append(s.calls, Call{Op: "env.Complete", Args: []string{id, userID}, Seq: len(s.calls), Thread: ThreadID()})
 	r, ok := s.reqs[id]
 	if !ok {
 		return false
@@ -242,7 +247,7 @@ func (s *Store) enter(op string, args ...string) (idx int, fault string) {
 	if fault != "" {
 		s.fired = append(s.fired, k+"="+fault)
 	}
-	s.calls = append(s.calls, Call{Op: op, Args: args, Fault: fault, Seq: len(s.calls)})
+	s.calls = append(s.calls, Call{Op: op, Args: args, Fault: fault, Seq: len(s.calls), Thread: ThreadID()})
 	return len(s.calls) - 1, fault
 }
 
